@@ -16,7 +16,8 @@ ANCHORS = ["cyecca/symbolic.py", "cyecca/lie/group_so3.py", "cyecca/lie/group_se
 MISSING = [
     "PARTIAL: double-precision round-off (cancellation on the closed-form side of the switch) is not modelled in Lean; "
     "it is explored by the search (doubles vs 40-digit mpmath reference on a log grid), which supports but does not prove the 1e-9 claim",
-    "truncation bounds as theorems exist for cos, sin x/x, (1-cos x)/x^2, (x-sin x)/x^3 (the coefficients of exp and J_l); "
+    "truncation bounds as theorems exist for cos, sin x/x, (1-cos x)/x^2, (x-sin x)/x^3 (the coefficients of exp and J_l) and (x^2/2 + cos x - 1)/x^4 "
+    "(position integral of the strap-down flow, with its value at exactly zero); "
     "the remaining entries (jinv, Q-block, tan/4, atan, x/sin x, V^-1) have branch/coefficient theorems only",
 ]
 
